@@ -533,6 +533,9 @@ pub fn check(data: &[u8], man: &Value, opts: &[String]) -> Out {
                     };
                     if let Some((d, _)) = ivs.delta(o, i, &coords) {
                         hv = Some(adv + d);
+                        if std::env::var("VERIF_DEBUG").is_ok() {
+                            eprintln!("C04dbg glyph {name} master {mname} coords {coords:?}: hmtx {adv} + HVAR({o},{i}) {d} = {} ; source {want}", adv + d);
+                        }
                         out.stat("c04_hvar_evaluations", 1.0);
                         if (adv + d - want).abs() > 1.0 + 1e-6 {
                             out.viol("C04", format!("glyph '{name}' at master {mname}: hmtx+HVAR advance {} but the master says {want}", adv + d));
